@@ -39,6 +39,8 @@ def check(run: Run) -> None:
     run.rule("C19.R2", "every lowering branch is guarded by len(node.args) == 1 and by the absence of keywords")
     run.rule("C19.R3", "fold literal == acc+1 / acc+v / max / min on the integer grid (all orderings); seed is Constant(0); Aggregate(seq, seed, fold)")
     run.rule("C19.R4", "the sequence argument is visited; every other path returns generic_visit(node)")
+    odd = sorted(n for n in cls.methods if n in ("visit", "generic_visit") or (n.startswith("visit_") and n != "visit_Call"))
+    run.check(not odd, "C19.R4", fi, cls.node, "the transformer defines visit_Call only (the traversal protocol is the stdlib's)", f"aggregate_node_transformer also defines {odd}: the traversal no longer reaches every node (e.g. a node object that occurs twice, or nodes below another kind), so some shortcut calls stay un-lowered", "only visit_Call")
     ctx = TermCtx(m, max_depth=4)
     fa = ctx.analysis(fi)
     node_p = ("param", fi.pos_params[1])
